@@ -2,7 +2,7 @@
 Deep embedding of the small imperative loops that decide a permutation: `pin_to_bytes` and `remap_pin_grid` (src/pin.rs, C16) and
 `generate_coordinates` (src/matrix_card.rs, C18).
 
-`tools/gen_code.py` translates the three functions from the working tree on every run into `Stmt` terms (Gen/Code.lean); this file is
+`tools/gen_imp.py` translates the functions from the working tree on every run into `Stmt` terms (Gen/CodeImp.lean); this file is
 their meaning.  Scalars are natural numbers held in numbered slots, byte arrays are `Bytes` held in numbered slots (the translator numbers
 the Rust names; it also does the typing, so every `+` and `*` carries the bit width of its Rust type):
 
